@@ -185,6 +185,9 @@ func runC14(c *Ctx) {
 
 	// R4 ------------------------------------------------------------
 	gTopLevel(c, "C14.R4")
+	if c.thorough() {
+		generatedNoPackageState(c, "C14.R4")
+	}
 
 	// R5 ------------------------------------------------------------
 	p := c.pkg(".")
